@@ -307,6 +307,7 @@ func (fr *Frame) unop(x *ssa.UnOp) {
 		r := fr.defineVal(x, lv.T)
 		vc.S.Assert(vc.rangeFact(r.T, x.Type(), 0))
 		fr.loadedRefFact(r, x.Type())
+		fr.entryClosedFact(r, x.Type(), p)
 		if strings.HasPrefix(p.Heap, "G|") && len(p.Path) == 0 && vc.P.NonNilGlobals()[p.Heap] {
 			// sentinel errors: initialised once with errors.New, never reassigned
 			vc.S.Assert(not(eq("(if-tag "+r.T+")", "0")))
@@ -355,6 +356,35 @@ func (fr *Frame) loadedRefFact(r *Val, t types.Type) {
 		fr.assume(or(eq(b, "0"), sel(fr.cur.Get("$alloc"), b)))
 	}
 	_ = vc
+}
+
+// entryClosedFact: the entry heap is closed under reachability. A reference loaded from a location
+// that still holds its entry contents, in an object that existed on entry, also existed on entry.
+func (fr *Frame) entryClosedFact(r *Val, t types.Type, p *Ptr) {
+	vc := fr.vc
+	if p == nil || p.Obj || p.Ref == "" || len(p.Path) > 0 || strings.HasPrefix(p.Heap, "G|") {
+		return
+	}
+	if _, ok := vc.heapSorts[p.Heap]; !ok {
+		return
+	}
+	if fr.cur.Get(p.Heap) != vc.root.Get(p.Heap) {
+		return
+	}
+	ral := vc.root.Get("$alloc")
+	var ref Term
+	switch t.Underlying().(type) {
+	case *types.Pointer, *types.Map:
+		if isOpaqueSpecial(t) {
+			return
+		}
+		ref = r.T
+	case *types.Slice:
+		ref = "(sl-base " + r.T + ")"
+	default:
+		return
+	}
+	fr.assume(implies(sel(ral, p.Ref), or(eq(ref, "0"), sel(ral, ref))))
 }
 
 // wrap applies Go's fixed-width semantics to a mathematical result.
